@@ -48,6 +48,9 @@ func sceneGenesis(o ReqOpts) {
 	o.Batch, o.AllBound, o.Earned, o.NoSlash, o.OneOutput, o.ZeroDep = true, true, true, true, true, 1
 	s := NewReqScene(o)
 	k, ctx, id := s.K, s.Ctx, s.ID
+	// provider 0 also serves a second service (two bindings of one provider, one owner)
+	Define(k, ctx, Svc+"x")
+	bx := Binding(k, ctx, "bx", Svc+"x", s.Provs[0], s.Owner, 0, 0, false)
 	hasWA := vf.Bool("hasWithdrawAddr")
 	wa := vf.Addr("withdrawAddr", 20)
 	if hasWA {
@@ -108,7 +111,7 @@ func sceneGenesis(o ReqOpts) {
 
 	gs := service.ExportGenesis(ctx, k)
 	chk("C19", types.ValidateGenesis(*gs) == nil, "exported-genesis-validates")
-	chk("C19", vf.All(len(gs.Definitions) == 1, len(gs.Bindings) == s.N, len(gs.RequestContexts) == 2), "export-lists-all-records")
+	chk("C19", vf.All(len(gs.Definitions) == 2, len(gs.Bindings) == s.N+1, len(gs.RequestContexts) == 2), "export-lists-all-records")
 	nWA := 0
 	if hasWA {
 		nWA = 1
@@ -123,13 +126,15 @@ func sceneGenesis(o ReqOpts) {
 	vf.Assume(!ipanic)
 	gs2 := service.ExportGenesis(ctx2, k2)
 	chk("C19", sameParams(gs.Params, gs2.Params), "params-survive")
-	chk("C19", vf.All(len(gs2.Definitions) == 1, len(gs2.Bindings) == s.N, len(gs2.RequestContexts) == 2, len(gs2.WithdrawAddresses) == nWA), "second-export-same-sizes")
-	if len(gs2.Definitions) == 1 && len(gs.Definitions) == 1 {
-		a, b := gs.Definitions[0], gs2.Definitions[0]
-		chk("C19", vf.All(a.Name == b.Name, a.Schemas == b.Schemas, a.Author.Equals(b.Author), a.Description == b.Description), "definitions-survive")
+	chk("C19", vf.All(len(gs2.Definitions) == 2, len(gs2.Bindings) == s.N+1, len(gs2.RequestContexts) == 2, len(gs2.WithdrawAddresses) == nWA), "second-export-same-sizes")
+	if len(gs2.Definitions) == 2 && len(gs.Definitions) == 2 {
+		for i := 0; i < 2; i++ {
+			a, b := gs.Definitions[i], gs2.Definitions[i]
+			chk("C19", vf.All(a.Name == b.Name, a.Schemas == b.Schemas, a.Author.Equals(b.Author), a.Description == b.Description), "definitions-survive")
+		}
 	}
-	if len(gs2.Bindings) == s.N && len(gs.Bindings) == s.N {
-		for i := 0; i < s.N; i++ {
+	if len(gs2.Bindings) == s.N+1 && len(gs.Bindings) == s.N+1 {
+		for i := 0; i <= s.N; i++ {
 			chk("C19", sameBinding(gs.Bindings[i], gs2.Bindings[i]), "bindings-survive")
 		}
 	}
@@ -142,11 +147,14 @@ func sceneGenesis(o ReqOpts) {
 		chk("C19", k2.GetWithdrawAddress(ctx2, s.Owner).Equals(wa), "withdraw-addresses-survive")
 	}
 	// rebuilt on import: parsed pricing and ownership indexes
+	px := k2.GetPricing(ctx2, Svc+"x", s.Provs[0])
+	chk("C19 C15 C07", px.Price.AmountOf(Denom).Equal(bx.Pricing.Price.AmountOf(Denom)), "pricing-of-a-provider's-second-binding-rebuilt-on-import")
+	chk("C19 C15", vf.Store(ctx2).Has(types.GetOwnerServiceBindingKey(s.Owner, Svc+"x", s.Provs[0])), "owner-index-of-second-binding-rebuilt-on-import")
 	for i := 0; i < s.N; i++ {
 		p := k2.GetPricing(ctx2, Svc, s.Provs[i])
 		chk("C19 C15", p.Price.AmountOf(Denom).Equal(s.Binds[i].Pricing.Price.AmountOf(Denom)), "pricing-rebuilt-on-import")
 		own, ok := k2.GetOwner(ctx2, s.Provs[i])
-		chk("C19 C15", vf.And(ok, own.Equals(s.Owner)), "ownership-rebuilt-on-import")
+		chk("C19 C15 C05", vf.And(ok, own.Equals(s.Owner)), "ownership-rebuilt-on-import")
 		chk("C19 C15", vf.And(vf.Store(ctx2).Has(types.GetOwnerServiceBindingKey(s.Owner, Svc, s.Provs[i])), vf.Store(ctx2).Has(types.GetOwnerProviderKey(s.Owner, s.Provs[i]))), "owner-indexes-rebuilt-on-import")
 	}
 }
